@@ -264,6 +264,9 @@ func validatorListCopy(valsList []*Validator) []*Validator {
 
 // Copy each validator into a new ValidatorSet.
 func (vs *ValidatorSet) Copy() *ValidatorSet {
+	if vs == nil {
+		return nil
+	}
 	return &ValidatorSet{
 		Validators:       validatorListCopy(vs.Validators),
 		Proposer:         vs.Proposer,
